@@ -398,6 +398,17 @@ def g15_kvp_args(ctx, g, prefix):
     kalts = [(a_["k"], a_.get("v")) for a_ in g.choices_of(g.expr("kvp_key"))]
     ctx.check(("ident", "string_literal") in kalts and any(k == "ident" and v != "string_literal" for k, v in kalts), prefix, "G15|key-forms",
               "G15: a key is an identifier or a string literal (`\"my key\" = 1; \"msg\"`): %s" % kalts, W)
+    # ... a Rust identifier: it may start with XID_START or `_` (`_id = _id`) and goes on with XID_CONTINUE
+    kfirst = g.first(g.inline(g.expr("kvp_key")))
+    for a_ in g.choices_of(g.expr("kvp_key")):
+        if a_["k"] == "ident" and a_["v"] in g.rules and a_["v"] != "string_literal":
+            kfirst |= g.first(g.inline(g.expr(a_["v"])))
+    kid = set()
+    for a_ in g.choices_of(g.expr("kvp_key")):
+        if a_["k"] == "ident" and a_["v"] in g.rules:
+            kid |= g.idents(g.inline(g.expr(a_["v"])))
+    ctx.check(("class", "XID_START") in kfirst and ("chr", "_") in kfirst and "XID_CONTINUE" in kid, prefix, "G15|key-identifier",
+              "G15: an identifier key starts with XID_START or `_` and continues with XID_CONTINUE (first: %s)" % sorted(str(x) for x in kfirst), W)
 
 
 def scan_alignment(ctx, g, prefix):
